@@ -72,10 +72,14 @@ type worker struct {
 
 type tailBuf struct{ b []byte }
 
+// Write keeps the HEAD of the worker's stderr: the runtime prints the reason of an unrecoverable failure
+// ("fatal error: runtime: out of memory") first and the goroutine dump after it.
 func (t *tailBuf) Write(p []byte) (int, error) {
-	t.b = append(t.b, p...)
-	if len(t.b) > 4096 {
-		t.b = t.b[len(t.b)-4096:]
+	if room := 8192 - len(t.b); room > 0 {
+		if room > len(p) {
+			room = len(p)
+		}
+		t.b = append(t.b, p[:room]...)
 	}
 	return len(p), nil
 }
@@ -163,6 +167,9 @@ func (r *runner) close() {
 
 func firstLine(s string) string {
 	s = strings.TrimSpace(s)
+	if i := strings.Index(s, "fatal error:"); i >= 0 {
+		s = s[i:]
+	}
 	if i := strings.IndexByte(s, '\n'); i >= 0 {
 		s = s[:i]
 	}
